@@ -540,7 +540,10 @@ impl W {
         let mut out = String::new();
         let mut feats = 0;
         if c.chance(100) {
-            out.push_str("#!/usr/bin/env roto -- é {\n");
+            // documented: "if [the first line] starts with `#!` then it will be ignored"
+            let lines = ["#!/usr/bin/env roto -- é {", "#!/usr/bin/env roto", "#! /usr/bin/env roto", "#!", "#!roto", "#!\t/usr/local/bin/roto run", "#!//", "#! \"unterminated", "#!/*", "#! fn main() {"];
+            out.push_str(lines[c.below(lines.len())]);
+            out.push('\n');
             feats += 1;
         }
         // multi-line f-strings: never touch text while inside a string literal
